@@ -613,23 +613,33 @@ class MPSBackendImpl:
         return results
 
 
-def permute_bitstrings(results: Results, perm: torch.Tensor) -> None:
-    if "bitstrings" not in results.get_result_tags():
-        return
-    uuid_bs = results._find_uuid("bitstrings")
-
-    results._results[uuid_bs] = [
-        Counter({optimat.permute_string(bstr, perm): c for bstr, c in bs_counter.items()})
-        for bs_counter in results._results[uuid_bs]
+def _tags_with_base(results: Results, base_tag: str) -> list[str]:
+    """Tags of the stored results of an observable type, with or without tag_suffix."""
+    return [
+        tag
+        for tag in results.get_result_tags()
+        if tag == base_tag or tag.startswith(base_tag + "_")
     ]
 
 
-def permute_occupations_and_correlations(results: Results, perm: torch.Tensor) -> None:
-    for corr in ["occupation", "correlation_matrix"]:
-        if corr not in results.get_result_tags():
-            continue
+def permute_bitstrings(results: Results, perm: torch.Tensor) -> None:
+    for tag in _tags_with_base(results, "bitstrings"):
+        uuid_bs = results._find_uuid(tag)
 
-        uuid_corr = results._find_uuid(corr)
+        results._results[uuid_bs] = [
+            Counter(
+                {optimat.permute_string(bstr, perm): c for bstr, c in bs_counter.items()}
+            )
+            for bs_counter in results._results[uuid_bs]
+        ]
+
+
+def permute_occupations_and_correlations(results: Results, perm: torch.Tensor) -> None:
+    tags = _tags_with_base(results, "occupation") + _tags_with_base(
+        results, "correlation_matrix"
+    )
+    for tag in tags:
+        uuid_corr = results._find_uuid(tag)
         corrs = results._results[uuid_corr]
         results._results[uuid_corr] = (
             [  # vector quantities become lists after results are serialized (e.g. for checkpoints)
